@@ -1039,6 +1039,9 @@ func c20RunCase(rep *verifkit.Report, id int, kind, dir string, maxBytes, budget
 			nrot = verifkit.Pick(1, 2) // every history rewrites and re-reads the files
 		}
 		m.rotationHistories(nrot)
+		if !m.dead {
+			m.growthHistories(verifkit.Pick(1, 2), rec.events["bytes_generated"] > 1<<20)
+		}
 	}
 	return rec
 }
@@ -1183,6 +1186,10 @@ func TestVerifC20(t *testing.T) {
 		"files_with_idle_periods_larger_than_a_probe_read(32KiB)":                                            20,
 		"files_with_idle_periods_larger_than_one_window":                                                     3,
 		"file_seek_present:chosen_by_the_timestamp_distribution":                                             2000,
+		"history(reader):appends_between_calls":                                                              500,
+		"history(file):appends_between_calls":                                                                500,
+		"history(reader):append_before_the_first_positioning":                                                100,
+		"history(file):append_before_the_first_positioning":                                                  100,
 		"history(reader):reads_after_failed_seek(total)":                                                     1000,
 		"history(file):reads_after_failed_seek(total)":                                                       500,
 		"history(reader):reads_after_failed_seek_reaching_eof":                                               100,
